@@ -401,8 +401,12 @@ impl Xot {
         if namespace == self.no_namespace() {
             return Ok(local_name.to_string());
         }
-        // look up the prefix for the namespace
-        if let Some(prefix) = self.prefix_for_namespace(node, namespace) {
+        // look up the prefix for the namespace; the name of an attribute node
+        // cannot use the default namespace
+        let allow_empty_prefix = !self.is_attribute_node(node);
+        if let Some(prefix) =
+            self.prefix_for_namespace_filtered(node, namespace, allow_empty_prefix)
+        {
             let prefix = self.prefix_str(prefix);
             if !prefix.is_empty() {
                 Ok(format!("{}:{}", prefix, local_name))
@@ -512,6 +516,17 @@ impl Xot {
     ///
     /// Returns `None` if no prefix is defined for the namespace.
     pub fn prefix_for_namespace(&self, node: Node, namespace: NamespaceId) -> Option<PrefixId> {
+        self.prefix_for_namespace_filtered(node, namespace, true)
+    }
+
+    /// Like `prefix_for_namespace`, but can be told not to consider the
+    /// empty prefix (the default namespace does not apply to attribute names).
+    pub(crate) fn prefix_for_namespace_filtered(
+        &self,
+        node: Node,
+        namespace: NamespaceId,
+        allow_empty_prefix: bool,
+    ) -> Option<PrefixId> {
         let mut seen = HashSet::default();
 
         for ancestor in self.ancestors(node) {
@@ -522,7 +537,7 @@ impl Xot {
                     continue;
                 }
                 seen.insert(key);
-                if *value == namespace {
+                if *value == namespace && (allow_empty_prefix || key != self.empty_prefix()) {
                     return Some(key);
                 }
             }
